@@ -438,10 +438,10 @@ Print Assumptions c02_rto_armed_fin_g_nonvacuous.
    computations of the new-data part start at the head of the table), no immediate ACK owed, the
    path limit not below header + max_ss, max_segment_retransmissions <> 0 (NonZeroUsize in the
    code; vconfig_ok of the model admits 0).
-   PARTIAL: the lifting to the trace predicate c02_prompt_write_g (Conn/C02_Pred2.v: c02_prompt's
-   write arm with the two extra guards idle_seq_ok / no_imm_ack on the fingerprint) over every
-   ftrace is not done; the invariant it needs (PI: tinv, path limit = accumulator, max_retx <> 0)
-   is proved to be kept by every step (PI_step).  The shutdown arm is not proved. ---- *)
+   Lifted to the trace predicate c02_prompt_write_g (Conn/C02_Pred2.v: c02_prompt's write arm with
+   the two extra guards idle_seq_ok / no_imm_ack on the fingerprint of the idle state) for every
+   ftrace from a fresh connection (c02_prompt_write_g_every_trace below).  The shutdown arm is not
+   proved. ---- *)
 From Utp Require Import Conn.VSock_LemmasPipe Conn.VSock_PollAux Conn.VSock_Poll Conn.C02_Prompt2.
 
 Theorem c02_poll_pending_inbox_drained : forall (CC : Type) (cci : cc_iface CC) (s s' : vsock CC),
@@ -476,3 +476,42 @@ Proof. exact @PI_step. Qed.
 Print Assumptions c02_poll_pending_inbox_drained.
 Print Assumptions c02_prompt_write_poll_partial.
 Print Assumptions c02_prompt_invariant_kept.
+
+(* every model trace: hypotheses = a total congestion controller, a valid configuration with
+   max_segment_retransmissions >= 1, clock values within the sampling bound *)
+Theorem c02_prompt_write_g_every_trace : forall (CC : Type) (cci : cc_iface CC), cc_total cci ->
+  forall (cfg : vconfig) (mk : Z -> Z -> CC) (c : vconfig) (s0 : vsock CC) (ops : list vop),
+  vconfig_ok c = true -> 1 <= vc_max_retx c -> Forall op_clock_ok ops ->
+  vsock_new cci mk c = Some s0 -> c02_prompt_write_g cfg (ftrace cci s0 ops) = true.
+Proof. exact @c02_prompt_write_g_trace. Qed.
+
+Theorem c02_prompt_write_g_nonvacuous :
+  exists w cfg ops,
+    vconfig_ok cfg = true /\ 1 <= vc_max_retx cfg /\
+    match wtrace w cfg ops with
+    | [st0; st1; st2] =>
+        prompt_window cfg (c10_acc_next c10_acc0 st0) st0 st1 st2 && idle_seq_ok (fs_pre st1) &&
+        no_imm_ack (fs_pre st1) && can_send_new (fs_now st1) 528 (fs_pre st1) && emits_data st2
+    | _ => false
+    end = true /\
+    c02_prompt_write_g cfg (wtrace w cfg ops) = true.
+Proof. exact prompt_write_g_nonvacuous. Qed.
+
+Print Assumptions c02_prompt_write_g_every_trace.
+Print Assumptions c02_prompt_write_g_nonvacuous.
+
+(* c02_prompt as stated is refuted only through a configuration the implementation cannot have *)
+Theorem c02_prompt_max_retx_zero_refuted :
+  exists w cfg ops,
+    vconfig_ok cfg = true /\ vc_max_retx cfg = 0 /\
+    c02_prompt cfg (wtrace w cfg ops) = false /\
+    match rev (wtrace w cfg ops) with
+    | st :: _ => match fs_result st with
+                 | FrPoll (PollReadyErr ErrMaxRetransmissionsReached) _ _ _ => True
+                 | _ => False
+                 end
+    | [] => False
+    end.
+Proof. exact prompt_max_retx_zero_refuted. Qed.
+
+Print Assumptions c02_prompt_max_retx_zero_refuted.
